@@ -35,6 +35,7 @@ type H2Opts struct {
 	SplitHdr  bool     // split header blocks into CONTINUATION frames
 	EncTable  []uint32 // sizes our own encoder switches to between messages (within MOSN's limit)
 	NewTable  []uint32 // later SETTINGS_HEADER_TABLE_SIZE values we send between messages
+	TablePair bool     // a change to 0 is followed at once by the next value (two size updates in one header block)
 }
 
 // h2settings: the values of one SETTINGS frame of ours that matter to the accounting. They bind
@@ -89,6 +90,10 @@ type H2End struct {
 	pending      []h2settings // our SETTINGS frames sent and not yet acknowledged, oldest first
 	effInitWin   int64        // the initial stream window MOSN has acknowledged (65535 until then)
 	tableDirty   bool         // a table-size change of ours has not been followed by a header block from MOSN yet
+	lastTable    uint32       // the value of our last table-size change
+	effTable     uint32       // the table size MOSN has acknowledged
+	encMax       uint32       // what MOSN's encoder uses after that acknowledgement
+	decMax       uint32       // the size our decoding table currently has
 	nextID       uint32
 	msgs         int
 	sentTotal    int64 // bytes handed to the transport so far
@@ -111,6 +116,7 @@ func NewH2End(s *sim.Sim, h *History, name string, server bool, o H2Opts) *H2End
 	e.fr = http2.NewFramer(&e.wbuf, &e.rbuf)
 	e.fr.SetMaxReadFrameSize(1<<24 - 1)
 	e.dec = hpack.NewDecoder(4096, nil) // the protocol default, until MOSN acknowledges our SETTINGS
+	e.effTable, e.encMax, e.decMax = 4096, 4096, 4096
 	e.effInitWin = 65535
 	e.fr.ReadMetaHeaders = e.dec
 	e.fr.MaxHeaderListSize = 16 << 20
@@ -162,9 +168,8 @@ func (e *H2End) Start(c *sim.Conn) {
 	)
 	e.pending = append(e.pending, h2settings{initWin: int64(e.O.InitWin), table: int64(e.O.TableSize)})
 	e.tableDirty = e.O.TableSize != 4096
-	if e.O.TableSize > 4096 {
-		e.dec.SetAllowedMaxDynamicTableSize(e.O.TableSize) // ready for a bigger table as soon as we offer it
-	}
+	e.lastTable = e.O.TableSize
+	e.allowTables()
 	if e.O.ConnExtra > 0 {
 		_ = e.fr.WriteWindowUpdate(0, e.O.ConnExtra)
 		e.recvConn += int64(e.O.ConnExtra)
@@ -210,12 +215,15 @@ func (e *H2End) OnData(c *sim.Conn, b []byte) {
 		if n == 0 {
 			break
 		}
+		if h2Trace {
+			e.S.Logf("h2 %s raw %x", e.Name, e.inbuf[:n])
+		}
 		e.rbuf.Write(e.inbuf[:n])
 		e.inbuf = e.inbuf[n:]
 		for e.rbuf.Len() > 0 && e.Err == nil {
 			f, err := e.fr.ReadFrame()
 			if err != nil {
-				e.fail("frame_unparsable", "the reference framer rejects what MOSN wrote: %v", err)
+				e.fail("frame_unparsable", "the reference framer rejects what MOSN wrote: %v (%v)", err, e.fr.ErrorDetail())
 				break
 			}
 			e.handle(f)
@@ -289,10 +297,17 @@ func (e *H2End) handle(f http2.Frame) {
 				p := e.pending[0]
 				e.pending = e.pending[1:]
 				if p.table >= 0 {
-					// our table size is in force now: like a strict peer, resize the decoding table;
-					// MOSN's encoder has to signal the change and stop referring to evicted entries
-					e.dec.SetAllowedMaxDynamicTableSize(uint32(p.table))
-					e.dec.SetMaxDynamicTableSize(uint32(p.table))
+					// our table size is in force now. MOSN's encoder works with min(value, its own 4096 limit)
+					// from here on and signals that in its next header block. Like a strict peer we shrink the
+					// decoding table at once (entries beyond the new size are gone for both sides); growth
+					// only happens when the encoder's size update arrives.
+					e.effTable = uint32(p.table)
+					e.encMax = min(e.effTable, 4096)
+					if e.encMax < e.decMax {
+						e.dec.SetMaxDynamicTableSize(e.encMax)
+						e.decMax = e.encMax
+					}
+					e.allowTables()
 				}
 				if p.initWin >= 0 {
 					d := p.initWin - e.effInitWin
@@ -349,6 +364,7 @@ func (e *H2End) handle(f http2.Frame) {
 	case *http2.MetaHeadersFrame:
 		if len(e.pending) == 0 {
 			e.tableDirty = false
+			e.decMax = e.encMax // the block that follows a change carries the encoder's size update
 		}
 		st := e.stream(f.StreamID)
 		if f.Truncated {
@@ -619,24 +635,35 @@ func (e *H2End) pump() {
 	e.flush()
 }
 
+// allowTables: until MOSN has acknowledged a value it may still use any size we have offered and not
+// withdrawn: the acknowledged one or any value still in flight.
+func (e *H2End) allowTables() {
+	m := e.effTable
+	for _, p := range e.pending {
+		if p.table >= 0 && uint32(p.table) > m {
+			m = uint32(p.table)
+		}
+	}
+	e.dec.SetAllowedMaxDynamicTableSize(m)
+}
+
 // ChangeTableSize sends a new SETTINGS_HEADER_TABLE_SIZE to MOSN.
 func (e *H2End) ChangeTableSize(v uint32) {
 	if e.Err != nil || e.Closed || e.Conn == nil {
 		return
 	}
-	if e.tableDirty {
+	if e.tableDirty && e.lastTable != 0 {
 		// Two changes between two header blocks make the encoder emit two size updates in a row
 		// (RFC 7541 4.2). x/net's own decoder rejects the second one when its table is not empty,
 		// although x/net's encoder produces exactly that: a quirk of the reference, not MOSN's.
+		// (After a change to 0 the table is empty, and a second change is fine.)
 		e.S.Logf("h2 %s: table size change to %d skipped (previous change not yet used by a header block)", e.Name, v)
 		return
 	}
 	e.tableDirty = true
+	e.lastTable = v
 	e.pending = append(e.pending, h2settings{initWin: -1, table: int64(v)})
-	if v > e.O.TableSize {
-		// growing is effective at once on our side (we are ready for a bigger table)
-		e.dec.SetAllowedMaxDynamicTableSize(v)
-	}
+	e.allowTables()
 	e.O.TableSize = v
 	_ = e.fr.WriteSettings(http2.Setting{ID: http2.SettingHeaderTableSize, Val: v})
 	e.flush()
@@ -836,6 +863,13 @@ func (u *H2Upstream) onRequest(e *H2End, st *h2stream) {
 		}
 		u.SendMessage(st, fieldsOf(rm, ""), rm.Body)
 		up.Sent = append(up.Sent, rm.Body)
+		// SETTINGS_HEADER_TABLE_SIZE changes in the middle of the connection's life: after the k-th answer
+		if k := u.Requests - 1; k < len(u.O.NewTable) {
+			u.ChangeTableSize(u.O.NewTable[k])
+			if u.O.NewTable[k] == 0 && k+1 < len(u.O.NewTable) && u.O.TablePair {
+				u.ChangeTableSize(u.O.NewTable[k+1]) // shrink to nothing and grow again between two header blocks
+			}
+		}
 		if up.Act.Kind == "reply_close" {
 			u.Conn.PeerClose()
 		}
